@@ -96,6 +96,7 @@ const HORIZON: usize = 20_000;
 
 pub fn execute(case: &Case, seed: u64, read: Policy) -> Outcome {
     fastrand::seed(seed);
+    set_app_pauses(true);
     let n = case.plans.len();
     let ids: Vec<u64> = (0..n as u64).map(|i| i * 4).collect();
     let (me, peer) = match case.me {
@@ -467,12 +468,12 @@ fn plan_from(v: &Value) -> Plan {
 
 pub fn run(args: &Args) -> i32 {
     let thorough = args.tier == Tier::Thorough;
-    let bound = if thorough { 2 } else { 2 };
-    let n = if thorough { 3 } else { 2 };
+    let bound = if thorough { 3 } else { 2 };
+    let n = 3;
     let mut rep = Report::new("C07", args.tier, args.seed, "model_checking");
     rep.exhaustive = true;
     rep.rule = format!(
-        "{n} concurrent requests on one connection; each request is healthy or suffers one fault of {{RESET(0x10c) after 0 / 1 / header-boundary / mid-DATA bytes, RESET(0) mid-frame, STOP_SENDING(0x10c), uppercase field name, missing :method/:status, LF in a value, section over the limit, FIN before HEADERS (server role)}}; every assignment with at least one faulty and (when n allows) one healthy request, for a real server and a real client against a scripted peer that plays the streams round-robin in three writes each. Every execution with <= {bound} deviations (scheduling among handler/request tasks, driver and script; chunk cuts and delayed delivery on every request stream), plus one-byte-per-read. Oracle: healthy requests deliver exactly their own position-coded bytes and complete, their responses are complete on the wire; no close(); drivers report no error; each faulty request reports the stream-level error the property names and never a connection error. states = distinct (transport cursors, per-request progress) fingerprints; non-trivial = executions with a deviation."
+        "{n} concurrent requests on one connection; each request is healthy or suffers one fault of {{RESET(0x10c) after 0 / 1 / header-boundary / mid-DATA bytes, RESET(0) mid-frame, STOP_SENDING(0x10c), uppercase field name, missing :method/:status, LF in a value, section over the limit, FIN before HEADERS (server role)}}; every assignment with at least one faulty and (when n allows) one healthy request, for a real server and a real client against a scripted peer that plays the streams round-robin in three writes each. Every execution with <= {bound} deviations (scheduling among handler/request tasks, driver and script; an application pause between any two calls of the request API; chunk cuts and delayed delivery on every request stream), plus one-byte-per-read. Oracle: healthy requests deliver exactly their own position-coded bytes and complete, their responses are complete on the wire; no close(); drivers report no error; each faulty request reports the stream-level error the property names and never a connection error. states = distinct (transport cursors, per-request progress) fingerprints; non-trivial = executions with a deviation."
     );
     rep.assumptions = vec!["a STOP_SENDING that arrives after the sending half completed is not reported (ok accepted)".into(), "client role: a response stream FIN-ed before HEADERS is not in the fault set (DESIGN.md 7)".into()];
     rep.bound_note = format!("{n} requests, deviation bound {bound}");
@@ -524,7 +525,7 @@ pub fn run(args: &Args) -> i32 {
     let seed = args.seed;
     let deadline = std::time::Instant::now() + std::time::Duration::from_secs(if thorough { 1500 } else { 35 });
     let accs = explore::par::run(&cases, Acc::new, |_, case, acc| {
-        let caps = Caps { deadline: Some(deadline), max_executions: if thorough { 400_000 } else { 40_000 }, ..Caps::default() };
+        let caps = Caps { deadline: Some(deadline), max_executions: if thorough { 4_000_000 } else { 400_000 }, ..Caps::default() };
         let mut viol = explore::report::ViolSet::new();
         let mut states: Vec<u64> = Vec::new();
         let mut outcomes: Vec<u64> = Vec::new();
